@@ -66,17 +66,24 @@ def _find_bad(v, var, w, op):
     return v.find_settings(bad_setting(var), op.get('a', 0), op.get('b'))
 
 
+def _varargs(var):
+    """The bad setting alone, or among good ones given as separate positional arguments (all of them have to be
+    accepted before anything is changed)."""
+    bad = bad_setting(var)
+    return [(bad,), ('bold', bad), (bad, 'red'), ('[1', 'red', bad)][(var // 23) % 4]
+
+
 def _fmatch_bad(v, var, w, op):
-    return v.format_matching(op.get('pat', 'a'), bad_setting(var))
+    return v.format_matching(op.get('pat', 'a'), *_varargs(var))
 
 
 def _unfmatch_bad(v, var, w, op):
-    return v.unformat_matching(op.get('pat', 'a'), bad_setting(var))
+    return v.unformat_matching(op.get('pat', 'a'), *_varargs(var))
 
 
 def _ctor_bad_settings(v, var, w, op):
     cls = AnsiStr if op.get('cls') == 'A' else AnsiString
-    return cls(v, bad_setting(var))
+    return cls(v, *_varargs(var))
 
 
 def _ctor_type(v, var, w, op):
